@@ -154,3 +154,32 @@ def run(ctx):
                'file opened with mode %s' % modes, 'file not opened in binary mode: %s' % modes, 'text-mode')
     ctx.expect(len(handles) == 1 and handles == load_handles, 'AGREE-8', 'same handle', where(write),
                'dump and load use %s' % sorted(handles), 'dump handles %s vs load handles %s' % (sorted(handles), sorted(load_handles)), 'handle-mismatch')
+
+
+FI = 'sedfitter/fit_info.py'
+MUST_FIRE = [
+    ('yield inside the handler', [(FI, "                except EOFError:\n                    return\n", "                except EOFError:\n                    yield info\n                    return\n")]),
+    ('handler yields a default FitInfo', [(FI, "                except EOFError:\n                    return\n", "                except EOFError:\n                    yield FitInfo()\n                    return\n")]),
+    ('handler falls through to the yield', [(FI, "                except EOFError:\n                    return\n                else:\n                    info.meta = self._first_meta\n                    yield info",
+                                              "                except EOFError:\n                    pass\n                info.meta = self._first_meta\n                yield info")]),
+    ('record written as two dumps', [(FI, "        pickle.dump(info, self._handle, 2)\n\n    def close", "        pickle.dump(info.source, self._handle, 2)\n        pickle.dump(info, self._handle, 2)\n\n    def close")]),
+    ('record assembled from two loads', [(FI, "                    info = pickle.load(self._handle)\n", "                    info = pickle.load(self._handle)\n                    info.source = pickle.load(self._handle)\n")]),
+    ('record modified before being yielded', [(FI, "                    info.meta = self._first_meta\n                    yield info", "                    info.meta = self._first_meta\n                    info.chi2 = info.chi2[:1]\n                    yield info")]),
+    ('yields a copy of part of the record', [(FI, "                    info.meta = self._first_meta\n                    yield info", "                    info.meta = self._first_meta\n                    yield info.source")]),
+    ('text mode', [(FI, "self._handle = open(fits, mode + 'b')", "self._handle = open(fits, mode)")]),
+    ('metadata dumped after the record', [(FI, "        if self._first_meta is None:\n            pickle.dump(info.meta.model_dir, self._handle, 2)", "        pickle.dump(info, self._handle, 2)\n        if self._first_meta is None:\n            pickle.dump(info.meta.model_dir, self._handle, 2)"),
+                                           (FI, "        pickle.dump(info, self._handle, 2)\n\n    def close", "\n    def close")]),
+    ('record dumped only for the first source', [(FI, "            self._first_meta = info.meta\n        else:", "            self._first_meta = info.meta\n            pickle.dump(info, self._handle, 2)\n            return\n        else:"),
+                                                 (FI, "        pickle.dump(info, self._handle, 2)\n\n    def close", "\n    def close")]),
+]
+MUST_SILENT = [
+    ('handler re-raises other errors explicitly', [(FI, "                except EOFError:\n                    return\n", "                except EOFError:\n                    return\n                except pickle.UnpicklingError:\n                    raise\n")]),
+    ('yield after the try via else-free form', [(FI, "                except EOFError:\n                    return\n                else:\n                    info.meta = self._first_meta\n                    yield info",
+                                                 "                except EOFError:\n                    return\n                info.meta = self._first_meta\n                yield info")]),
+    ('break instead of return', [(FI, "                except EOFError:\n                    return\n", "                except EOFError:\n                    break\n")]),
+]
+
+
+def thorough(ctx):
+    from .. import selftest
+    selftest.run(ctx, MUST_FIRE, MUST_SILENT)
